@@ -43,6 +43,8 @@ def run(rep, tier):
              "sandbox-memory object (the tainted_volatile struct or one of its fields) as its example, every context translation uses the caller's sandbox")
     rep.rule("R-C08-arrays", "array fields are converted element-wise over every index of every dimension, or by one byte copy of the whole array between identical element representations "
              "(shared analysis with C06's R-C06-array, applied to the array conversions the struct family instantiates)")
+    rep.rule("R-C08-values", "every integer field conversion the struct family instantiates accepts exactly the values representable in the destination field and stores them unchanged "
+             "(a field that is not representable aborts; shared analysis with C06's R-C06-guard, applied to the conversions instantiated for struct fields)")
     rep.rule("R-C08-nested", "nested registered structs are converted recursively (their leaf fields appear in the mapping)")
     backends = ["model32", "noop"] if tier == "quick" else ["model32", "model32gi", "noop", "dylib"]
     dbs = facts.load_core(backends, ["INVOKE"], thorough=(tier == "thorough"))
@@ -62,6 +64,7 @@ def run(rep, tier):
                 kinds_seen.add(field_kind(fl["t"] or {}))
         if db in gen:
             c06.check_arrays(RuleView(rep, {"R-C06-array": "R-C08-arrays"}), db, floor=6)
+            c06.check_guards(RuleView(rep, {"R-C06-guard": "R-C08-values"}), db, 10 if db.label.startswith("model32") else 4, set())
         for S in structs:
             check_layout(rep, db, S, a, n)
         for f in db.functions:
